@@ -29,6 +29,23 @@ def main(tier, seed):
     profcheck.run_scenarios(rep, "switchcontexts", scenarios.fiber_switch_context_scenarios(), bins, PROP)
     # a completion waiting in a finally block belongs to the fiber that is suspended there (its exception, where it was raised, its handlers)
     profcheck.run_scenarios(rep, "interleaved", scenarios.interleaved_failure_scenarios(("uncaught", "caught-by-caller")), bins, PROP)
+    # fibers nest to any depth, also after runs that died deep inside nested fibers (StackBudget.tla: a fiber call spends none of the caller's
+    # budget, and an aborted run leaves no count behind)
+    from checks import c02 as _c02
+    _lim, _nest, _st = _c02.stack_budget(rep, True, tier)
+    fn = 0
+    for o in list(_c02.FNESTS):
+        for aborted in ((), (40, 40), (600, 600)):
+            snips = _c02.fiber_nest_src(o["nest"], aborted)
+            for bname, binary in bins:
+                r = vlib.Pool(binary, "run", timeout=300).map([{"id": "fnest", "snippets": [{"src": s_} for s_ in snips], "gc": "never", "stack_mb": 256}])[0]
+                fn += 1
+                last = r["runs"][-1] if "runs" in r else None
+                good = last is not None and last.get("ok") and vlib.run_output_lines(last) == [str(o["nest"]), "(1, 2)"]
+                if not good:
+                    rep.violation("fibers nested %d deep after aborted runs %r (%s build): expected %r and (1, 2), got %r"
+                                  % (o["nest"], aborted, bname, o["nest"], (last or {k: r[k] for k in r if k != "events"})), {"snippets": snips})
+    rep.coverage["fiber_nesting_cases"] = fn
     # lifetimes: fibers that returned / were abandoned / resumed / failed, run from the script, a fiber or a nested fiber, kept or dropped
     profcheck.run_scenarios(rep, "fiberlifetimes", scenarios.fiber_lifetime_scenarios(), bins, PROP)
     # fibers whose code lives in another module than their caller's: after every switch each side is back in its own module
